@@ -57,6 +57,10 @@ pub fn trace(args: &[String]) {
       // every page takes its turn as the first transfer of a history
       let page = next_page % 256; next_page += 1;
       let p = mem_ptr(&mut core);
+      // display on or off, and a random position in the frame: the transfer does not depend on either
+      memory_write_byte(p, 0xff40, *rng.pick(&[0x00u8, 0x91, 0x80, 0x11]));
+      let skip = 4 * rng.below(17556) as usize;
+      { let m = &mut core.memory; let _ = m.io.video.run_clock_cycles(ClockCycles(skip.max(4)), &m.video_ram, &m.oam_ram); }
       memory_write_byte(p, 0xff46, page as u8);
       emit(&mut out, &mut core, "start", page as u64, 0, None); count += 1;
       continue;
